@@ -82,6 +82,14 @@ XStep(x, e, pass) ==
 RECURSIVE XRun(_, _, _, _)
 XRun(x, flat, i, pass) == IF i > Len(flat) THEN PassExit(x) ELSE XRun(XStep(x, flat[i], pass), flat, i + 1, pass)
 
+\* the machine states after every statement of a pass (the pending list is explicit state)
+RECURSIVE XStates(_, _, _, _)
+XStates(x, flat, i, pass) == IF i > Len(flat) THEN <<PassExit(x)>> ELSE <<XStep(x, flat[i], pass)>> \o XStates(XStep(x, flat[i], pass), flat, i + 1, pass)
+\* outside an EXPECT block nothing is pending: ENDEXPECT and the end of the pass leave the list empty, so an
+\* announcement that was not met cannot swallow a message that occurs later outside any block
+PendingOnlyInsideBlock(flat, pass) ==
+  LET xs == XStates(XInit, flat, 1, pass) IN \A i \in DOMAIN xs : ~xs[i].inExp => xs[i].pending = <<>>
+
 \* messages of one pass over the delivered statements; the passes asl makes: a second one iff the first one is
 \* free of errors and met an undefined symbol (forward reference assumed)
 PassDiags(flat, pass) == XRun(XInit, flat, 1, pass).out
@@ -211,6 +219,14 @@ ExpectProg(A, O, closed, nested) ==
      \o (IF nested THEN <<L(<<>>, "EXPECT", N(1200))>> ELSE <<>>)
      \o Flatten([i \in DOMAIN O |-> <<FLT(O[i]), Clean(i)>>])
      \o (IF closed THEN <<L(<<>>, "ENDEXPECT", <<>>)>> ELSE <<>>) \o <<Clean(2)>>]
+\* histories: messages before a block, a block (announcements A1, occurring O1), messages between / after blocks,
+\* an optional second block (A2 = <<>>: none).  An announcement that is not met must not outlive its ENDEXPECT.
+ExpectHistory(pre, A1, O1, mid, A2, O2, post) ==
+  LET F(S) == [i \in DOMAIN S |-> FLT(S[i])]
+      blk(A, O) == <<L(<<>>, "EXPECT", Cs([i \in DOMAIN A |-> N(A[i])]))>> \o F(O) \o <<L(<<>>, "ENDEXPECT", <<>>)>>
+  IN [f \in {"a.asm"} |-> <<Clean(1)>> \o F(pre) \o blk(A1, O1) \o <<Clean(2)>> \o F(mid)
+                           \o (IF A2 = <<>> THEN <<>> ELSE blk(A2, O2)) \o F(post) \o <<Clean(3)>>]
+
 \* EXPECT in a macro body, the faults in the expansion
 ExpectInMacro(A, O) ==
   [f \in {"a.asm"} |->
